@@ -68,6 +68,15 @@ var solvers = []solverSpec{
 	}, "(set-option :produce-models true)\n"},
 }
 
+// z3-new without the array extensionality axiom: every VC of a function that
+// handles several byte strings shares hundreds of (Array Int Int) terms, and
+// the quadratic number of extensionality splits dominates the solving time.
+// Non-extensional arrays are a weaker theory, so an `unsat` verdict is sound;
+// any other verdict of this back end is ignored.
+var noExt = solverSpec{"z3-new-noext", func(f string, t time.Duration) []string {
+	return []string{"z3-new", "-smt2", fmt.Sprintf("-T:%d", int(t.Seconds())+1), "smt.array.extensional=false", f}
+}, "(set-option :produce-models true)\n"}
+
 var fileN int
 var fileMu sync.Mutex
 
@@ -135,16 +144,29 @@ func Solve(script string, timeout time.Duration) Result {
 	if first > 4*time.Second {
 		first = 4 * time.Second
 	}
-	r := runOne(ctx, solvers[0], script, true, first)
-	tried = append(tried, fmt.Sprintf("%s:%s:%.2fs", r.Solver, r.Status, r.Time))
-	if r.Status == "unsat" || r.Status == "sat" {
-		r.Tried = tried
-		return r
+	// quick phase: z3-new with and without array extensionality side by side
+	qctx, qcancel := context.WithCancel(ctx)
+	qch := make(chan Result, 2)
+	go func() { qch <- runOne(qctx, solvers[0], script, true, first) }()
+	go func() { qch <- runOne(qctx, noExt, script, false, first) }()
+	var r Result
+	for i := 0; i < 2; i++ {
+		x := <-qch
+		tried = append(tried, fmt.Sprintf("%s:%s:%.2fs", x.Solver, x.Status, x.Time))
+		if x.Status == "unsat" || (x.Status == "sat" && x.Solver == solvers[0].name) {
+			qcancel()
+			x.Tried = tried
+			return x
+		}
+		if x.Solver == solvers[0].name {
+			r = x
+		}
 	}
+	qcancel()
 	// race the portfolio
 	rctx, cancel := context.WithCancel(ctx)
 	defer cancel()
-	ch := make(chan Result, len(solvers))
+	ch := make(chan Result, len(solvers)+1)
 	n := 0
 	for i, s := range solvers {
 		if i == 0 && first >= timeout {
@@ -152,6 +174,16 @@ func Solve(script string, timeout time.Duration) Result {
 		}
 		n++
 		go func(s solverSpec) { ch <- runOne(rctx, s, script, true, timeout) }(s)
+	}
+	if first < timeout {
+		n++
+		go func() {
+			x := runOne(rctx, noExt, script, false, timeout)
+			if x.Status == "sat" {
+				x.Status = "unknown" // not a verdict of the full theory
+			}
+			ch <- x
+		}()
 	}
 	last := r
 	for i := 0; i < n; i++ {
